@@ -118,11 +118,11 @@ static void derive(Problem& P) {
 //                  (findings F12d of C07 / F12-svd of C16: the discarded amount is absolute, not relative to ||Op||)
 //   nu_one         buckling / Cayley mode: the reference spectrum of the pencil contains an eigenvalue that the spectral map sends to nu = 1 within
 //                  max(1e3 eps, 10 tol) (buckling: K_G singular, i.e. infinite eigenvalues of K x = lambda K_G x; both: |lambda| > |sigma| / max(1e3 eps, 10 tol))
-struct Ctx { Out* out; uint64_t seed; long caseno; std::string stream; std::string tier; bool weak = false; LD minbeta_rel = 1e300L; bool discard = false; mutable int nu_one = 0; int sigarg = 0; bool twin = false; };
+struct Ctx { Out* out; uint64_t seed; long caseno; std::string stream; std::string tier; bool weak = false; LD minbeta_rel = 1e300L; bool discard = false; mutable int nu_one = 0; int sigarg = 0; bool twin = false; int ophist = 0; };
 struct FnObserver : public Spectra::verif::Observer { std::function<void(const char*)> f; void on(const char* tag, const void*) override { if (f) f(tag); } };
 static std::string hist_json(const Ctx& c, const std::string& cls, const Problem& P, const std::vector<Call>& calls, size_t upto) {
     std::string s = "{\"harness\":\"c03\",\"seed\":" + str(c.seed) + ",\"stream\":\"" + c.stream + "\",\"case\":" + str(c.caseno) + ",\"class\":\"" + cls + "\",\"mode\":" + str(P.mode) + ",\"n\":" + str(P.n) + ",\"nev\":" + str(P.nev) + ",\"ncv\":" + str(P.ncv) +
-        ",\"sigma\":\"" + str(P.sigma) + "\",\"condB_exp\":" + str(P.condexp) + ",\"sigkind\":" + str(P.sigkind) + ",\"tier\":\"" + c.tier + "\",\"weak_handover\":" + str((int) c.weak) + ",\"abs_discard\":" + str((int) c.discard) + ",\"nu_one\":" + str(c.nu_one) + ",\"sigma_arg\":" + str(P.mode >= 2 ? c.sigarg : 0) + ",\"twin\":" + str((int) c.twin) + ",\"desc\":\"" + jesc(P.desc) + "\",\"calls\":\"";
+        ",\"sigma\":\"" + str(P.sigma) + "\",\"condB_exp\":" + str(P.condexp) + ",\"sigkind\":" + str(P.sigkind) + ",\"tier\":\"" + c.tier + "\",\"weak_handover\":" + str((int) c.weak) + ",\"abs_discard\":" + str((int) c.discard) + ",\"nu_one\":" + str(c.nu_one) + ",\"sigma_arg\":" + str(P.mode >= 2 ? c.sigarg : 0) + ",\"twin\":" + str((int) c.twin) + ",\"op_history\":" + str(c.ophist) + ",\"desc\":\"" + jesc(P.desc) + "\",\"calls\":\"";
     for (size_t i = 0; i <= upto && i < calls.size(); i++) { const Call& k = calls[i];
         if (k.kind == 'I') s += "init(v);"; else if (k.kind == 'J') s += "init();"; else if (k.kind == 'C') s += "compute(" + str(k.sel) + "," + str(k.maxit) + "," + str(k.tol) + "," + str(k.sort) + ");"; else s += std::string(1, k.kind) + ";"; }
     return s + "\"}";
@@ -330,9 +330,19 @@ static void corr_case(Ctx& c, Rng& r, int nmax) {
 
 // ---------------- stream "lib": the library's own wrappers, dense / sparse ----------------
 #ifndef C03_NO_LIB
+// what happened to the user's SymShiftInvert OBJECT before the solver is built on it (the solver's constructor installs its own shift):
+//   1 an earlier legal shift;  2 a shift that is exactly an eigenvalue of the pencil (the decoupled coordinate 0: A00 = 2 B00), which the
+//   factorization rejects with invalid_argument -- the user then retries with the shift of the case;  3 both, rejected one last
+template <class OP> static void op_history(OP& op, Ctx& c) {
+    if (c.ophist == 0) return;
+    c.out->count("lib_op_history_" + str(c.ophist));
+    if (c.ophist == 1 || c.ophist == 3) { try { op.set_shift(0.7321); } catch (const std::exception&) { c.out->count("lib_op_history_legal_shift_threw"); } }
+    if (c.ophist >= 2) { try { op.set_shift(2.0); c.out->count("lib_op_history_singular_shift_accepted"); } catch (const std::invalid_argument&) { c.out->count("lib_op_history_singular_shift_rejected"); } catch (const std::exception&) { c.out->count("lib_op_history_singular_shift_other_exception"); } }
+}
 template <class S> static void lib_run(S& s, const std::string& cls, const Problem& P, const std::vector<Call>& calls, Ctx& c) { drive(s, cls, P, calls, c, nullptr, nullptr, std::function<long()>(), []() {}); }
 template <class TA, class TB, class MA, class MB, class BP, class MBP> static void lib_shift(const MA& A, const MB& B, const MBP& Kp, const std::string& tag, const Problem& P, const std::vector<Call>& calls, Ctx& c) {
     using SI = Spectra::SymShiftInvert<double, TA, TB>; SI op(A, B); BP Bop(Kp);
+    op_history(op, c);
     c.out->count("lib_sigarg_" + str(c.sigarg));
     if (P.mode == 2) with_shift_solver<Spectra::SymGEigsShiftSolver<SI, BP, GEigsMode::ShiftInvert>>(c.sigarg, op, Bop, P.nev, P.ncv, P.sigma, [&](auto& s) { lib_run(s, "SymGEigsShiftSolver<ShiftInvert>/" + tag, P, calls, c); });
     else if (P.mode == 3) with_shift_solver<Spectra::SymGEigsShiftSolver<SI, BP, GEigsMode::Buckling>>(c.sigarg, op, Bop, P.nev, P.ncv, P.sigma, [&](auto& s) { lib_run(s, "SymGEigsShiftSolver<Buckling>/" + tag, P, calls, c); });
@@ -346,6 +356,7 @@ template <int UA, int UB> static void lib_shift_uplo(const Problem& P, const std
         if ((UA == Eigen::Lower) == upper) Ag(i, j) = 1e3 * (1.0 + r.unit()) * (r.coin() ? 1 : -1);
         if ((UB == Eigen::Lower) == upper) Bg(i, j) = 1e3 * (1.0 + r.unit()) * (r.coin() ? 1 : -1); }
     using SI = Spectra::SymShiftInvert<double, Eigen::Dense, Eigen::Dense, UA, UB>; SI op(Ag, Bg);
+    op_history(op, c);
     const std::string tag = std::string("dense,dense,") + (UA == Eigen::Lower ? "Lower" : "Upper") + "," + (UB == Eigen::Lower ? "Lower" : "Upper");
     c.out->count("lib_sigarg_" + str(c.sigarg));
     if (P.mode == 3) { using BP = Spectra::DenseSymMatProd<double, UA>; BP Bop(Ag); with_shift_solver<Spectra::SymGEigsShiftSolver<SI, BP, GEigsMode::Buckling>>(c.sigarg, op, Bop, P.nev, P.ncv, P.sigma, [&](auto& s) { lib_run(s, "SymGEigsShiftSolver<Buckling>/" + tag, P, calls, c); }); }
@@ -354,7 +365,11 @@ template <int UA, int UB> static void lib_shift_uplo(const Problem& P, const std
         else with_shift_solver<Spectra::SymGEigsShiftSolver<SI, BP, GEigsMode::Cayley>>(c.sigarg, op, Bop, P.nev, P.ncv, P.sigma, [&](auto& s) { lib_run(s, "SymGEigsShiftSolver<Cayley>/" + tag, P, calls, c); }); }
 }
 static void lib_case(Ctx& c, Rng& r, int nmax) {
-    Out& out = *c.out; const int mode = (int) (c.caseno % 5); Problem P = gen_problem(r, mode, nmax); if (P.sigkind == 9) { P.sigma = 1.2345; P.sigkind = 0; } if (c.twin) make_twin(P); derive(P);
+    Out& out = *c.out; const int mode = (int) (c.caseno % 5); Problem P = gen_problem(r, mode, nmax); if (P.sigkind == 9) { P.sigma = 1.2345; P.sigkind = 0; } if (c.twin) make_twin(P);
+    // operator-object history share (shift modes, every 3rd case): coordinate 0 is decoupled with A00 = 2 B00, so sigma = 2 is EXACTLY an eigenvalue
+    c.ophist = (mode >= 2 && !c.twin && (c.caseno / 5) % 3 == 2) ? 1 + (int) ((c.caseno / 15) % 3) : 0;     // period 3 against the period-4 storage combinations: every dense/sparse pairing gets every kind
+    if (c.ophist >= 2) { for (int j = 1; j < P.n; j++) { P.A(0, j) = P.A(j, 0) = 0.0; P.B(0, j) = P.B(j, 0) = 0.0; } P.B(0, 0) = 1.0; P.A(0, 0) = 2.0; if (std::fabs(P.sigma - 2.0) < 0.05) P.sigma += 0.11; }
+    derive(P);
     std::vector<Call> calls = c.twin ? twin_history(r, P.n) : gen_history(r, P.n, false); if (c.twin) out.count("lib_twin"); const int combo = (int) ((c.caseno / 5) % 4); const bool sa = combo & 1, sb = combo & 2;
     SpMat As = P.A.sparseView(), Bs = P.B.sparseView(); As.makeCompressed(); Bs.makeCompressed();
     out.count("lib_mode_" + str(mode) + "_combo_" + str(combo)); out.count("lib_condB_1e" + str(P.condexp));
